@@ -26,6 +26,23 @@ POOL = ["wrong-arg-types", "attribute-error", "name-error", "bad-return-type", "
         "not-callable", "unsupported-operands", "missing-parameter", "wrong-arg-count", "wrong-keyword-args"]
 BASE_QUERY_NAMES = ["wrong-arg-types", "bad-return-type", "name-error", "annotation-type-mismatch"]
 
+# The classes for which pytype documents the line adjustment, as of the commit the finding was recorded on.
+# A class that becomes adjustable later is NOT covered by the recorded finding (different fingerprint).
+ADJUSTABLE_WHEN_RECORDED = frozenset((
+    "attribute-error", "duplicate-keyword", "invalid-annotation", "missing-parameter", "not-instantiable",
+    "wrong-arg-count", "wrong-arg-types", "wrong-keyword-args", "unsupported-operands",
+    "annotation-type-mismatch", "bad-return-type", "bad-yield-annotation", "container-type-mismatch",
+    "not-supported-yet", "signature-mismatch"))
+
+
+def adjusted_fp(kind, name):
+  if kind == "ignore":
+    return "adjusted-start-line:type-ignore"
+  if name in ADJUSTABLE_WHEN_RECORDED:
+    return "adjusted-start-line"
+  return "adjusted-start-line:newly-adjustable-class:" + str(name)
+
+
 KNOWN_WHAT = {
     "adjusted-start-line":
         "a trailing '# pytype: disable=E' on a later line of a multi-line statement/call also silences class E on "
@@ -60,7 +77,8 @@ def pre_directive(r):
       "# type: ignore[foo]", "# pytype: disable", f"# pytype: foo=bar disable={n1}", f"# pytype: disable={n1} foo",
       "# pytype: disable=bogus-name", f"# pytype: pragma=cache-return disable={n1}",
       f"# pytype: features=nope disable={n1}", "# type: int", f"# plain  # pytype: disable={n1}  # type: ignore",
-      "# pytype:", f"# pytype: disable={n1},,{n1}",
+      "# pytype:", f"# pytype: disable={n1},,{n1}", f"# pytype: disable={n1} enable={n1}",
+      f"# pytype: enable={n1} disable={n1}  # pytype: enable={n1}",
   ])
 
 
@@ -261,10 +279,19 @@ def explained_by_drop(dropped, line, name):
     if ic and line in (s, cc[0]):
       if cc[1] == "type" or "*" in cc[2] or name in cc[2]:
         return True
+      if name in ("invalid-directive", "late-directive") and line == cc[0]:
+        return True      # the lost copy of a malformed directive no longer logs its own error
   return False
 
 
-def classify_director(ed, info, queries, before, after, groups_new, table, live, dropped=()):
+def end_moved(base, fn_ends, before_line, orig_line=None):
+  """The new comment sits in a multi-line statement range (s, e) whose last line is the end of a function (so
+  _parse_src_tree moves that function's end to s) and the error was reported on e or raised inside [s, e]."""
+  return any(s < e and e in fn_ends and (before_line == e or (orig_line is not None and s <= orig_line <= e))
+             for s, e in base)
+
+
+def classify_director(ed, info, queries, before, after, groups_new, table, live, dropped=(), fn_ends=()):
   """Returns list of (fingerprint, detail) for every deviation from the property, [] when it holds."""
   k = ed["kind"]
   L = info["L"]
@@ -283,7 +310,10 @@ def classify_director(ed, info, queries, before, after, groups_new, table, live,
         continue
       target = b[1] == L and (k == "ignore" or n == E) and L != 0
       if target:
-        if a[0] == 1:
+        if a[0] == 1 and n == irn and ro and a[1] != b[1] and end_moved(base, fn_ends, b[1], l):
+          out.append(("implicit-return-line-moves",
+                      f"({l},{n},ret) was reported on {b[1]}; after the edit it is reported on {a[1]} and logged"))
+        elif a[0] == 1:
           later_enable = k == "trailing" and any(
               cc[1] == "pytype" and not cc[3] and cc[0] != L and mentions(cc[2], "enable", E) and s == L
               for ic, s, e, cs in groups_new for cc in cs)
@@ -293,7 +323,7 @@ def classify_director(ed, info, queries, before, after, groups_new, table, live,
       if a == b:
         continue
       if a[1] != b[1]:
-        if n == irn and ro and any(b[1] == e and s <= a[1] <= e and s < e for s, e in base):
+        if n == irn and ro and end_moved(base, fn_ends, b[1], l):
           out.append(("implicit-return-line-moves", f"({l},{n},ret) reported on {b[1]} before, {a[1]} after"))
         else:
           out.append(("reported-line-changed", f"query {(l, n, ro)} before={b} after={a}"))
@@ -303,7 +333,7 @@ def classify_director(ed, info, queries, before, after, groups_new, table, live,
         out.append(("call-range-drops-earlier-comment-lines",
                     f"({l},{n}) before={b} after={a}: a call range lost the directive of an earlier line"))
       elif b[0] == 1 and a[0] == 0 and adj_ok and b[1] in starts and b[1] != L:
-        out.append(("adjusted-start-line" if k == "trailing" else "adjusted-start-line:type-ignore",
+        out.append((adjusted_fp(k, E),
                     f"({l},{n}) also silenced; it is the start line of a range containing line {L}"))
       else:
         out.append(("other-verdict-changed", f"query {(l, n, ro)} before={b} after={a}"))
@@ -325,7 +355,7 @@ def classify_director(ed, info, queries, before, after, groups_new, table, live,
       eff = b[1] if b[1] != 0 else 2 ** 63 - 1
       inside = eff >= L and (Mx is None or eff < Mx)
       if a[1] != b[1]:
-        if n == irn and ro and any(b[1] == e and s <= a[1] <= e and s < e for s, e in base):
+        if n == irn and ro and end_moved(base, fn_ends, b[1], l):
           out.append(("implicit-return-line-moves", f"({l},{n},ret) reported on {b[1]} before, {a[1]} after"))
         else:
           out.append(("reported-line-changed", f"query {(l, n, ro)} before={b} after={a}"))
@@ -364,7 +394,7 @@ def analyse(src, disable=()):
 DIRECTIVE_ERRORS = ("invalid-directive", "late-directive")
 
 
-def classify_e2e(ed, info, before, after, groups_new, table, live, dropped=()):
+def classify_e2e(ed, info, before, after, groups_new, table, live, dropped=(), fn_ends=()):
   """before/after: (errs, pyi).  Returns list of (fingerprint, detail)."""
   k = ed["kind"]
   L = info["L"]
@@ -414,7 +444,7 @@ def classify_e2e(ed, info, before, after, groups_new, table, live, dropped=()):
   for t in list(missing):
     if t[1] == irn:
       for x in list(extra):
-        if x[1] == irn and x[2] == t[2] and any(t[0] == e and s <= x[0] <= e and s < e for s, e in base):
+        if x[1] == irn and x[2] == t[2] and end_moved(base, fn_ends, t[0]):
           missing.remove(t)
           extra.remove(x)
           out.append(("implicit-return-line-moves", f"{t[:2]} is reported as {x[:2]} after the edit"))
@@ -423,11 +453,11 @@ def classify_e2e(ed, info, before, after, groups_new, table, live, dropped=()):
   if adj and k in ("trailing", "ignore"):
     for t in adj:
       missing.remove(t)
-    out.append(("adjusted-start-line" if k == "trailing" else "adjusted-start-line:type-ignore",
+    out.append((adjusted_fp(k, E),
                 f"also silenced: {[t[:2] for t in adj][:3]} (start line of a range containing line {L})"))
   # an implicit-return error that moved to the start line and is filtered there by the same directive
   for t in list(missing):
-    if k in ("trailing", "ignore") and t[1] == irn and any(t[0] == e and s < e for s, e in base) and \
+    if k in ("trailing", "ignore") and t[1] == irn and end_moved(base, fn_ends, t[0]) and \
         (k == "ignore" or E == irn):
       missing.remove(t)
       out.append(("implicit-return-line-moves", f"{t[:2]} moved to the statement's start line and is filtered there"))
@@ -497,8 +527,9 @@ def director_deviations(src, disable, ed, table, live):
   if cb != 0 or ca != 0:
     return [("construction-raises", f"before={cb} after={ca}")] if ca != cb else []
   groups_new, _, _, _ = M.real_parse(new)
-  groups_ref, _, _, _ = M.real_parse(ref)
-  return classify_director(ed, info, qs, before, after, groups_new, table, live, dropped_events(groups_ref, groups_new))
+  groups_ref, fr_ref, _, _ = M.real_parse(ref)
+  return classify_director(ed, info, qs, before, after, groups_new, table, live, dropped_events(groups_ref, groups_new),
+                           {e for _, e in fr_ref})
 
 
 def e2e_deviations(src, disable, ed, table, live):
@@ -510,8 +541,9 @@ def e2e_deviations(src, disable, ed, table, live):
   if a is None:
     return None
   groups_new, _, _, _ = M.real_parse(new)
-  groups_ref, _, _, _ = M.real_parse(ref)
-  return classify_e2e(ed, info, b, a, groups_new, table, live, dropped_events(groups_ref, groups_new))
+  groups_ref, fr_ref, _, _ = M.real_parse(ref)
+  return classify_e2e(ed, info, b, a, groups_new, table, live, dropped_events(groups_ref, groups_new),
+                      {e for _, e in fr_ref})
 
 
 def query_names(ref, new, ed, table):
@@ -562,7 +594,9 @@ def run(res):
   except c03_gen.TranslateError as e:
     res.obligation("translator:error-classes", False, str(e))
     return "proof"
+  t_phase = time.time()
   common.coq_obligations(res, "C03", extra_targets=["Directors/Cases.vo"])
+  res.extra["coq_build_wall_s"] = round(time.time() - t_phase, 1)
   common.bootstrap_pytype()
   from pytype.directors import directors
   from pytype.errors import errors
@@ -723,7 +757,7 @@ def run(res):
         res.sample({"program": src[len(P.PRELUDE):], "edit": ed, "verdicts_changed": changed})
       if not skip_oracle:
         devs = classify_director(ed, info, qs, before, after, parsed[new][0], table, live,
-                                 dropped_events(parsed[ref][0], parsed[new][0]))
+                                 dropped_events(parsed[ref][0], parsed[new][0]), {e for _, e in parsed[ref][1]})
         for fp in sorted({d[0] for d in devs}):
           dev_hist["director:" + fp] += 1
           detail = next(d[1] for d in devs if d[0] == fp)
@@ -735,11 +769,12 @@ def run(res):
             s2, e2 = shrink(src, ed, still, 10.0)
             rep = {"src": s2, "disable": disable, "edit": e2, "level": "director"}
           report(fp, detail, rep)
-      if do_e2e and kind in ("trailing", "ignore", "pair"):
+      if do_e2e and (kind in ("trailing", "ignore") or (kind == "pair" and not skip_oracle)):
         e2e_jobs.append((tag, src, disable, ed))
-      elif do_e2e and tag.startswith("corpus:"):
+      elif do_e2e and tag.startswith("corpus:") and not skip_oracle:
         e2e_jobs.append((tag, src, disable, ed))
 
+  res.extra["generation_and_director_oracle_wall_s"] = round(time.time() - t_start, 1)
   res.extra["variants"] = len(cases)
   res.extra["queries_compared"] = n_queries
   res.extra["edits_by_kind"] = dict(kinds)
@@ -881,3 +916,8 @@ def replay(res, path):
   fps = {x[0] for x in dv} | {x[0] for x in (ev or [])}
   want = d.get("fingerprint", "").replace("c03:", "")
   return 1 if (want in fps or (not want and fps)) else 0
+
+
+def generate():
+  """Called by harness/setup.py before the Coq build (coq/Generated is not committed)."""
+  c03_gen.regenerate()
